@@ -170,6 +170,14 @@ Definition effect_bid_owner_accept (l : gmap key Z) (bidder owner conv : N) : op
 Definition effect_bid_bidder_accept (bidder owner : N) (c : Z) : option (list lop) :=
   if 0 <=? c then Some [Move (bal bidder CUR_OLT) (bal owner CUR_OLT) c] else None.
 
+(* ---------------- wrapped currencies (action/eth): lock -> mint, redeem -> burn, failed redeem -> refund ----------------
+   The supply counter (balance of TotalSupplyAddr) moves in step with every operation: it is a side record, not value.
+   The finality vote count deciding WHEN a mint / refund happens is C15's; here: what it does to the ledger. *)
+Definition effect_eth_lock_mint (owner cur : N) (locked : Z) : list lop := [Mint (bal owner cur) locked].
+Definition effect_eth_redeem_burn (owner cur : N) (amount : Z) : option (list lop) :=
+  if 0 <=? amount then Some [Burn (bal owner cur) amount] else None.
+Definition effect_eth_redeem_refund (owner cur : N) (burnt : Z) : list lop := [Mint (bal owner cur) burnt].
+
 (* a transaction = the handler's operations followed by the fee step *)
 Definition tx_ops (e : option (list lop)) (payer fp : N) (fee : Z) : option (list lop) :=
   match e with Some ops => Some (ops ++ fee_ops payer fp fee) | None => None end.
